@@ -37,6 +37,9 @@ type Obligation struct {
 	Output string
 	ExpectSat bool // cover obligations
 	Vars   map[string]string // parameter name -> SMT term (for replay)
+	fn     *ssa.Function
+	fc     *FuncContract
+	clause *Clause
 }
 
 type edge struct {
@@ -81,6 +84,8 @@ type Frame struct {
 	headerSt map[*ssa.BasicBlock]*State
 	caller  *Frame
 	curEnv  *SpecEnv
+	curPos  token.Pos
+	curClause *Clause
 }
 
 func (f *Frame) pos(p token.Pos) string {
@@ -120,7 +125,7 @@ func (f *Frame) oblige(kind, label, goal string, pos token.Pos, props []string, 
 		ps = append(ps, tf.fc.Props...)
 	}
 	o := &Obligation{Name: name, Kind: kind, Props: ps, Func: tf.c.fnName, Pos: f.pos(pos),
-		NDefs: len(c.decls), Goal: implies(f.reach, goal), Text: text, ctx: c}
+		NDefs: len(c.decls), Goal: implies(f.reach, goal), Text: text, ctx: c, fn: tf.fn, fc: tf.fc, clause: f.curClause}
 	c.obls = append(c.obls, o)
 	// known finding with a witness region: also prove the obligation outside that region,
 	// so that a different failure of the same obligation is still reported
@@ -663,6 +668,7 @@ func (f *Frame) loadVal(p *Path, t types.Type) Val {
 	if vf, ok := f.viewField(p); ok {
 		return vf.load()
 	}
+	f.checkRaw(p, "load")
 	s := c.load(f.st, p)
 	s = c.bind("ld", s, c.sortOf(t))
 	// range facts for loaded integers (heap contents are well-typed)
@@ -678,11 +684,38 @@ func (f *Frame) loadVal(p *Path, t types.Type) Val {
 	return Val{T: t, S: s}
 }
 
+// checkRaw: a dereference through an index computed by pointer arithmetic must
+// stay inside the object the pointer was derived from.
+func (f *Frame) checkRaw(p *Path, what string) {
+	c := f.c
+	t := c.rootType(p)
+	for i, s := range p.Steps {
+		switch u := t.Underlying().(type) {
+		case *types.Struct:
+			t = u.Field(s.Field).Type()
+		case *types.Array:
+			if s.Raw {
+				if i == 0 && (p.Kind == rootArr || p.Kind == rootStrArr) {
+					if p.Lo == "" || p.Hi == "" {
+						f.oblige("bounds", "rawptr", "false", f.curPos, nil, "dereference of a raw pointer whose valid range is unknown")
+					} else {
+						f.oblige("bounds", "rawptr", and(c.idxLe(p.Lo, s.Idx), c.idxLt(s.Idx, p.Hi)), f.curPos, nil, "raw pointer "+what+" outside the memory it was derived from")
+					}
+				} else {
+					f.boundsOblige("rawptr", s.Idx, c.idxLit(u.Len()), f.curPos, "raw pointer "+what+" outside the array it was derived from")
+				}
+			}
+			t = u.Elem()
+		}
+	}
+}
+
 func (f *Frame) storeVal(p *Path, v Val) {
 	if vf, ok := f.viewField(p); ok {
 		vf.store(v)
 		return
 	}
+	f.checkRaw(p, "store")
 	if v.P != nil {
 		// storing a structural pointer: only pointers to whole heap objects can be materialised
 		if v.P.Kind == rootHeap && len(v.P.Steps) == 0 {
@@ -706,6 +739,9 @@ func (f *Frame) storeVal(p *Path, v Val) {
 
 func (f *Frame) execInstr(in ssa.Instruction) {
 	c := f.c
+	if p := in.Pos(); p.IsValid() {
+		f.curPos = p
+	}
 	switch x := in.(type) {
 	case *ssa.DebugRef:
 		return
@@ -999,19 +1035,24 @@ func (f *Frame) ptrArith(op string, a, b Val, x *ssa.BinOp) Val {
 		p := a.P
 		n := len(p.Steps)
 		if n > 0 && p.Steps[n-1].IsIdx {
-			// element size must be 1 (byte arrays) for raw arithmetic
 			et := c.naturalType(p)
-			if sz := c.eng.sizes.Sizeof(et); sz != 1 {
-				panic(unsupported(fmt.Sprintf("pointer arithmetic over elements of size %d", sz)))
-			}
+			sz := c.eng.sizes.Sizeof(et)
 			q := *p
 			q.Steps = append([]Step{}, p.Steps...)
 			d := c.toIdx(b.S, b.T)
+			if sz != 1 {
+				if c.mode == "bv" {
+					panic(unsupported("pointer arithmetic over multi-byte elements in bv mode"))
+				}
+				f.oblige("bounds", "align", fmt.Sprintf("(= (mod %s %d) 0)", d, sz), x.Pos(), nil, "pointer arithmetic not a multiple of the element size")
+				d = fmt.Sprintf("(div %s %d)", d, sz)
+			}
 			if op == "+" {
 				q.Steps[n-1].Idx = c.idxAdd(p.Steps[n-1].Idx, d)
 			} else {
 				q.Steps[n-1].Idx = c.idxSub(p.Steps[n-1].Idx, d)
 			}
+			q.Steps[n-1].Raw = true
 			return Val{T: x.Type(), P: &q}
 		}
 	}
